@@ -78,6 +78,8 @@ class C07(runner.Check):
 		# runs torch corrupts torch's OpenMP pool ("Invalid thread pool!") and
 		# breaks replay.  The helper is irrelevant to C07 (it never sees the
 		# model), so its pure-Python body is used instead.
+		import warnings
+		warnings.filterwarnings("ignore", message="Implicit dimension choice")
 		from tangermeme import design
 		if hasattr(design._fast_tile_substitute, "py_func"):
 			design._fast_tile_substitute = design._fast_tile_substitute.py_func
@@ -88,6 +90,11 @@ class C07(runner.Check):
 		S = core.Streams(seed)
 		r = S("workload")
 		mspec = mw.gen_spec(r)
+		x_ = S("softmax")
+		if x_.chance(0.1):
+			# a layer whose behaviour hangs on a plain (non-tensor) attribute
+			mspec["trunk"].insert(x_.randint(0, len(mspec["trunk"])),
+				{"t": "act", "name": "SoftmaxImplicit"})
 		case = {"leg": leg, "seed": seed, "model": mspec, "probe_seed": r.subseed()}
 		if leg == "enum":
 			# bias toward the op with hooks; the rest share predict
@@ -162,6 +169,8 @@ class C07(runner.Check):
 		log = core.EventLog()
 		mspec, op = case["model"], case["op"]
 		log.log("case", mspec, op)
+		if any(l.get("name") == "SoftmaxImplicit" for l in mspec["trunk"]):
+			out.bump("world.softmax_implicit_dim")
 		pristine = mw.build_model(mspec)
 		pX, pargs = self._probe_inputs(mspec, case["probe_seed"])
 		if case["leg"] == "single":
@@ -233,6 +242,8 @@ class C07(runner.Check):
 		log = core.EventLog()
 		mspec = case["model"]
 		log.log("case", mspec)
+		if any(l.get("name") == "SoftmaxImplicit" for l in mspec["trunk"]):
+			out.bump("world.softmax_implicit_dim")
 		pristine = mw.build_model(mspec)
 		shared = mw.clone_model(pristine)
 		pX, pargs = self._probe_inputs(mspec, case["probe_seed"])
